@@ -37,6 +37,7 @@ for mf in sorted(glob.glob(V + '/seeded/*/meta.json')):
         cell.append('%s exit %s: %s' % (p, c['exit'], short(c['keys'], 3) if c['keys'] else '**missed**'))
     fr = m.get('first_result', 'caught')
     fr = 'MISSED, check strengthened' if fr.startswith('MISSED') else 'caught by C13 only' if fr.startswith('not observable by C11') else 'caught'
+    if m['id'] == 'C02-6': fr = 'MISSED by C02 and C13; C13 strengthened'
     s.append('| %s | %s | %s | %s / %s | %s | %s | %s |' % (m['id'], ','.join(m['breaks_property']), m['needs_to_manifest'].replace('|', '\\|'), m.get('demo_exit_unchanged'), m.get('demo_exit_with_change'),
                                                   m.get('baseline_with_change', 'not run'), '<br>'.join(cell), fr))
 seedtab = '\n'.join(s)
